@@ -608,7 +608,7 @@ class Generator:
                 for a in blk.attrs:
                     self.out.add(a + "\n", {"o": "spec", "f": blk.specfile, "l": blk.line, "fn": fnpath})
             if is_canary:
-                self.out.add("\n#[allow(dead_code)] ", None)
+                self.out.add("\n#[allow(dead_code)] #[verifier::rlimit(2)] ", None)
             self._flush(toks, it.a0, it.end, edits, fnpath + ("#canary" if is_canary else ""))
             self.out.add("\n", None)
 
